@@ -16,6 +16,7 @@ import (
 	"runtime"
 	"sort"
 	"strings"
+	"sync"
 	"testing"
 	"testing/synctest"
 	"time"
@@ -29,6 +30,7 @@ import (
 	"github.com/temporalio/s2s-proxy/config"
 	vrt "github.com/temporalio/s2s-proxy/internal/verifrt"
 	"github.com/temporalio/s2s-proxy/transport/grpcutil"
+	"github.com/temporalio/s2s-proxy/transport/mux/session"
 )
 
 type vfEchoAdmin struct {
@@ -46,11 +48,97 @@ type vfCCPeer struct {
 	srv    *grpc.Server
 	killed bool
 	name   string
+	// incoming yamux streams, accepted once per session and handed to the current gRPC server incarnation
+	streams    chan net.Conn
+	acceptDone chan struct{}
 }
+
+// vfSessWrap is what the client connection is handed for a registered session: the real ManagedMuxSession,
+// except that the environment can make its next Open fail once (a transient yamux failure on a live session:
+// write timeout, stream exhaustion) and can put its health state to Error (what healthCheck does after one
+// failed ping) without the session ending.
+type vfSessWrap struct {
+	session.ManagedMuxSession
+	e  *vfCCExec
+	id string
+}
+
+func (w *vfSessWrap) Open() (net.Conn, error) {
+	if w.e.failOpen[w.id] > 0 {
+		w.e.failOpen[w.id]--
+		w.e.logf("Open on session %s fails once (transient)", w.id)
+		return nil, yamux.ErrConnectionWriteTimeout
+	}
+	return w.ManagedMuxSession.Open()
+}
+
+func (w *vfSessWrap) State() *session.MuxSessionInfo {
+	if w.e.degraded[w.id] {
+		return &session.MuxSessionInfo{State: session.Error, Err: yamux.ErrConnectionWriteTimeout}
+	}
+	return w.ManagedMuxSession.State()
+}
+
+// OnConnectionListUpdate makes vfCCExec the listener the manager notifies; it forwards to the real
+// MultiClientConn with every session wrapped.
+func (e *vfCCExec) OnConnectionListUpdate(muxes map[string]session.ManagedMuxSession) {
+	wrapped := make(map[string]session.ManagedMuxSession, len(muxes))
+	for k, v := range muxes {
+		wrapped[k] = &vfSessWrap{ManagedMuxSession: v, e: e, id: k}
+	}
+	e.mcc.OnConnectionListUpdate(wrapped)
+}
+
+// vfPeerListener lets a peer's gRPC server be stopped and replaced without closing the yamux session it
+// serves on: one acceptor goroutine per session feeds incoming streams to whichever listener incarnation is
+// current; closing an incarnation only ends its own Accept.
+type vfPeerListener struct {
+	p      *vfCCPeer
+	closed chan struct{}
+	once   sync.Once
+}
+
+func (p *vfCCPeer) listener() *vfPeerListener {
+	if p.streams == nil {
+		p.streams = make(chan net.Conn)
+		p.acceptDone = make(chan struct{})
+		go func() {
+			defer close(p.acceptDone)
+			for {
+				c, err := p.sess.Accept()
+				if err != nil {
+					return
+				}
+				select {
+				case p.streams <- c:
+				case <-p.sess.CloseChan():
+					_ = c.Close()
+					return
+				}
+			}
+		}()
+	}
+	return &vfPeerListener{p: p, closed: make(chan struct{})}
+}
+
+func (l *vfPeerListener) Accept() (net.Conn, error) {
+	select {
+	case c := <-l.p.streams:
+		return c, nil
+	case <-l.closed:
+		return nil, net.ErrClosed
+	case <-l.p.acceptDone:
+		return nil, net.ErrClosed
+	}
+}
+func (l *vfPeerListener) Close() error   { l.once.Do(func() { close(l.closed) }); return nil }
+func (l *vfPeerListener) Addr() net.Addr { return l.p.sess.Addr() }
 
 type vfCCScenario struct {
 	Size  int `json:"size"`
 	Depth int `json:"depth"`
+	// MaxFaults bounds the environment faults (degrade, failOpen, bounce) per path.
+	MaxFaults int `json:"max_faults"`
 	// Real: the manager is built by the real NewGRPCMuxManager (mux-client definition: the real establisher over
 	// the in-memory network, the per-session gRPC server and yamux observer, the listener wiring of
 	// grpc_mux_manager.go); otherwise NewCustomMultiMuxManager over a harness connProvider.
@@ -76,6 +164,9 @@ type vfCCExec struct {
 	events   []string
 	rpcs     int
 	now      int
+	failOpen map[string]int
+	degraded map[string]bool
+	faults   int
 }
 
 func (e *vfCCExec) violate(sig, detail string) {
@@ -89,7 +180,7 @@ func (e *vfCCExec) violate(sig, detail string) {
 func (e *vfCCExec) logf(f string, a ...any) { e.events = append(e.events, fmt.Sprintf(f, a...)) }
 
 func vfNewCCExec(sc vfCCScenario) *vfCCExec {
-	e := &vfCCExec{sc: sc, idToPeer: map[string]int{}}
+	e := &vfCCExec{sc: sc, idToPeer: map[string]int{}, failOpen: map[string]int{}, degraded: map[string]bool{}}
 	lifetime, cancel := context.WithCancel(context.Background())
 	e.cancel = cancel
 	logger := log.NewNoopLogger()
@@ -103,7 +194,7 @@ func vfNewCCExec(sc vfCCScenario) *vfCCExec {
 		vrt.SetFakeNet(&vrt.FakeNet{Dial: e.fn.dial, Listen: e.fn.listen})
 		cd := config.ClusterDefinition{ConnectionType: config.ConnTypeMuxClient, MuxCount: sc.Size,
 			MuxAddressInfo: config.TCPTLSInfo{ConnectionString: "verif-peer:7233"}}
-		mm, err := NewGRPCMuxManager(lifetime, "verif", cd, mcc, grpc.NewServer(), logger)
+		mm, err := NewGRPCMuxManager(lifetime, "verif", cd, e, grpc.NewServer(), logger)
 		if err != nil {
 			panic(err)
 		}
@@ -116,7 +207,7 @@ func vfNewCCExec(sc vfCCScenario) *vfCCExec {
 		sessionFn := func(conn net.Conn) (*yamux.Session, error) { return yamux.Client(conn, vfYamuxConfig()) }
 		return NewMuxProvider(ctx, "verif", e.cp, sessionFn, int64(sc.Size), add, []string{"verif", "mux", "cc"}, logger), nil
 	}
-	mm, err := NewCustomMultiMuxManager(lifetime, "verif", builder, nil, []OnConnectionListUpdate{mcc.OnConnectionListUpdate}, logger)
+	mm, err := NewCustomMultiMuxManager(lifetime, "verif", builder, nil, []OnConnectionListUpdate{e.OnConnectionListUpdate}, logger)
 	if err != nil {
 		panic(err)
 	}
@@ -135,7 +226,7 @@ func (e *vfCCExec) add() {
 	}
 	p.srv = grpc.NewServer()
 	adminservice.RegisterAdminServiceServer(p.srv, &vfEchoAdmin{name: p.name})
-	go func() { _ = p.srv.Serve(p.sess) }()
+	go func(srv *grpc.Server, l net.Listener) { _ = srv.Serve(l) }(p.srv, p.listener())
 	before := e.liveIDs()
 	e.peers = append(e.peers, p)
 	e.logf("session to %s offered", p.name)
@@ -254,6 +345,19 @@ func (e *vfCCExec) enabled() []string {
 	if e.rpcs < 3 {
 		out = append(out, "rpc")
 	}
+	if e.faults < e.sc.MaxFaults {
+		for _, id := range e.liveIDs() {
+			if !e.degraded[id] {
+				out = append(out, "degrade:"+id)
+			}
+			if e.failOpen[id] == 0 {
+				out = append(out, "failOpen:"+id)
+			}
+			if pi, ok := e.idToPeer[id]; ok && !e.peers[pi].killed {
+				out = append(out, fmt.Sprintf("bounce:%d", pi))
+			}
+		}
+	}
 	return out
 }
 
@@ -283,6 +387,25 @@ func (e *vfCCExec) apply(a string) error {
 		_ = p.conn.Close()
 	case "rpc":
 		e.rpc()
+	case "degrade":
+		e.faults++
+		e.degraded[f[1]] = true
+		e.logf("session %s: health state Error (one ping failed), session still up", f[1])
+	case "failOpen":
+		e.faults++
+		e.failOpen[f[1]] = 1
+	case "bounce":
+		// the peer's gRPC server restarts on the same yamux session: the client's HTTP/2 transport on that session
+		// ends and gRPC dials the endpoint again
+		var i int
+		fmt.Sscan(f[1], &i)
+		e.faults++
+		p := e.peers[i]
+		e.logf("%s: gRPC server restarts (session stays up)", p.name)
+		p.srv.Stop()
+		p.srv = grpc.NewServer()
+		adminservice.RegisterAdminServiceServer(p.srv, &vfEchoAdmin{name: p.name})
+		go func(srv *grpc.Server, l net.Listener) { _ = srv.Serve(l) }(p.srv, p.listener())
 	default:
 		return fmt.Errorf("unknown action %s", a)
 	}
@@ -291,7 +414,20 @@ func (e *vfCCExec) apply(a string) error {
 
 func (e *vfCCExec) key() string {
 	var sb strings.Builder
-	fmt.Fprintf(&sb, "live=%v waiting=%v rpcs=%d|", e.liveIDs(), e.waiting(), e.rpcs)
+	var deg, fo []string
+	for id, d := range e.degraded {
+		if d {
+			deg = append(deg, id)
+		}
+	}
+	for id, n := range e.failOpen {
+		if n > 0 {
+			fo = append(fo, id)
+		}
+	}
+	sort.Strings(deg)
+	sort.Strings(fo)
+	fmt.Fprintf(&sb, "live=%v waiting=%v rpcs=%d faults=%d degraded=%v failOpen=%v|", e.liveIDs(), e.waiting(), e.rpcs, e.faults, deg, fo)
 	for i, p := range e.peers {
 		fmt.Fprintf(&sb, "%d:%v,", i, p.killed)
 	}
@@ -384,9 +520,9 @@ func TestVerifC11(t *testing.T) {
 		t.Logf("replay: %+v", out)
 		return
 	}
-	scs := []vfCCScenario{{Size: 2, Depth: 5}, {Size: 2, Depth: 4, Real: true}}
+	scs := []vfCCScenario{{Size: 2, Depth: 5, MaxFaults: 2}, {Size: 2, Depth: 4, MaxFaults: 1, Real: true}}
 	if vrt.Thorough() {
-		scs = []vfCCScenario{{Size: 3, Depth: 7}, {Size: 3, Depth: 6, Real: true}}
+		scs = []vfCCScenario{{Size: 3, Depth: 7, MaxFaults: 2}, {Size: 3, Depth: 6, MaxFaults: 2, Real: true}}
 	}
 	pool := vrt.NewPool("TestVerifC11", vrt.Workers(), 120*time.Second)
 	deadline := vrt.Deadline()
@@ -471,7 +607,7 @@ func TestVerifC11(t *testing.T) {
 	res.Set("distinct_outcomes", int64(len(outcomes)))
 	res.Set("exhaustive", exhaustive && len(harnessErrs) == 0)
 	res.Set("harness_errors", harnessErrs)
-	res.Set("alphabet", "add (new yamux session with a gRPC echo server behind it), closeLocal(id), killPeer(i), rpc (DescribeCluster, up to 3 tries of 2 s each 2 s apart); after every path a closing rpc and, if nothing is live, a new session followed by an rpc")
+	res.Set("alphabet", "add (new yamux session with a gRPC echo server behind it), closeLocal(id), killPeer(i), rpc (DescribeCluster, up to 3 tries of 2 s each 2 s apart), and up to max_faults of: degrade(id) (the session's health state reads Error while it stays up), failOpen(id) (its next Open fails once), bounce(i) (the peer's gRPC server restarts on the same session, so the client redials); after every path a closing rpc and, if nothing is live, a new session followed by an rpc")
 	res.Set("explanation", "every transition runs the real multiMuxManager (listener = real MultiClientConn.OnConnectionListUpdate; second family: built by the real NewGRPCMuxManager with the real establisher over an in-memory network), real yamux and a real grpc.ClientConn/Server pair in a synctest bubble; after every action the dialable endpoint set is compared with the registered sessions and CanMakeCalls; no separate model")
 	res.Sample(map[string]any{"pool_size": sc.Size, "states": states})
 	res.Assume("gRPC and yamux internals run free (in virtual time) between actions; a call is given 3 tries within 10 s of virtual time before 'fails although a session is live' is reported")
